@@ -145,7 +145,8 @@ Inductive cmd :=
 | PruneIg (id : Z)
 | CreateNode (http tcp : Z)
 | CreatePtView (db : Z)
-| UpdatePt (db pt cowner cstat owner status : Z).
+| UpdatePt (db pt cowner cstat owner status : Z)
+| Restore.                                            (* snapshot (clone, marshal) and restore (unmarshal) of the whole catalogue *)
 
 Definition ok (c : cat) : cat * bool := (c, true).
 Definition err (c : cat) : cat * bool := (c, false).
@@ -476,6 +477,21 @@ Definition update_pt (c : cat) (db pt cowner cstat owner status : Z) : cat * boo
       end
   end.
 
+(* -- snapshot and restore of the whole catalogue (storeFSM.Snapshot / Persist / Restore) --
+   Instants are persisted as int64 nanoseconds (MarshalTime = time.Time.UnixNano): a group start before -2^63 ns - the
+   cell of an instant close to models.MinNanoTime begins there - wraps around. Everything else the model observes comes back
+   unchanged. *)
+Definition MININT : Z := -9223372036854775808.
+Definition wrap64 (z : Z) : Z := (z - MININT) mod 18446744073709551616 + MININT.
+Definition restore_sg (g : sgroup) : sgroup :=
+  {| sg_id := sg_id g; sg_start := wrap64 (sg_start g); sg_end := wrap64 (sg_end g); sg_del := sg_del g; sg_eng := sg_eng g;
+     sg_dur := sg_dur g; sg_shards := sg_shards g |}.
+Definition restore_ig (g : igroup) : igroup :=
+  {| ig_id := ig_id g; ig_start := wrap64 (ig_start g); ig_end := wrap64 (ig_end g); ig_del := ig_del g; ig_eng := ig_eng g;
+     ig_indexes := ig_indexes g |}.
+Definition restore_state (c : cat) : cat :=
+  set_pols c (map (fun p => pol_set_igs (pol_set_sgs p (map restore_sg (rp_sgs p))) (map restore_ig (rp_igs p))) (pols c)).
+
 (* ---- the step function ---- *)
 Definition apply (clip cleardef : bool) (c : cat) (x : cmd) : cat * bool :=
   match x with
@@ -498,6 +514,7 @@ Definition apply (clip cleardef : bool) (c : cat) (x : cmd) : cat * bool :=
   | CreateNode h t => create_node c h t
   | CreatePtView db => create_ptview c db
   | UpdatePt db pt co cs o s => update_pt c db pt co cs o s
+  | Restore => ok (restore_state c)
   end.
 
 Definition apply_current := apply false false.
